@@ -105,6 +105,7 @@ fn c19_q_display_names() {
         }
         k += 1;
     }
+    kani::cover!(true, "14 names compared");
 }
 
 // H: tier=quick; sym=code:i32 in header bytes 32..36, box bytes symbolic; asserts=Header::read_from is Err(InvalidShapeType(code)) exactly for codes outside the table, Ok with the matching type otherwise
